@@ -63,7 +63,7 @@ def check_universe():
 
 def atom_lists(tier):
     if tier == 'quick':
-        return ms.CONN_ATOMS[:4], ms.OBJ_ATOMS[:10] + ms.OBJ_ATOMS[13:14] + ms.OBJ_ATOMS[18:], ms.NAME_ATOMS[:8] + ms.NAME_ATOMS[11:], \
+        return ms.CONN_ATOMS[:4], ms.OBJ_ATOMS[:10] + ms.OBJ_ATOMS[13:14] + ms.OBJ_ATOMS[18:], ms.NAME_ATOMS[:8] + ms.NAME_ATOMS[9:10] + ms.NAME_ATOMS[11:], \
             ms.ARG_ATOMS[:12] + ms.ARG_ATOMS[26:29] + ms.ARG_ATOMS[32:]
     return ms.CONN_ATOMS, ms.OBJ_ATOMS, ms.NAME_ATOMS, ms.ARG_ATOMS
 
